@@ -36,6 +36,20 @@ fn dispatch(ctx: &Ctx) {
 
 fn main() {
     let args: Vec<String> = std::env::args().skip(1).collect();
+    if args.first().map(|s| s.as_str()) == Some("C20-cold") {
+        // child process of the C20 cold-start sub-check: vw C20-cold --seed N
+        let seed: u64 = args.get(2).and_then(|s| s.parse().ok()).unwrap_or(1);
+        match vcore::c20::cold_process(seed) {
+            Ok(n) => {
+                println!("consistent {}", n);
+                std::process::exit(0);
+            }
+            Err(e) => {
+                println!("{}", e);
+                std::process::exit(1);
+            }
+        }
+    }
     let ctx = Ctx::from_args(&args);
     if ctx.param_u64("nojets", 0) == 1 {
         vcore::gen::NO_JETS.store(true, std::sync::atomic::Ordering::Relaxed);
